@@ -34,7 +34,7 @@ RULE = ("per run one valid BF3/BEC2/BF2 file and ~10 damage sets of 1-4 storage 
 REAL = ["bec2format.bf3file (BF3 reader, BF2 importer, filter formatter)", "bec2format.bec2file (BEC2 reader, auth "
         "blocks, encryptors)", "bec2format.configid", "register_crypto_plugin + pyaes + ecdsa"]
 STUBS = ["peer: stub decryptors (the ext_encryptors seam) returning payloads of unexpected size", "medium: SimFS with at-rest damage", "RNG: SimRng", "BF2 texts: grammar generator sim/bf2gen.py"]
-PROBES = ["peer-decryptor-odd-payload", "parsed-ok-after-damage", "format-error", "value-error", "unicode-error", "bec2-empty-block-value",
+PROBES = ["peer-decryptor-odd-payload", "parsed-ok-after-damage", "format-error", "value-error", "bec2-empty-block-value",
           "bf2-damaged", "configid-downstream", "filter-downstream", "line-fault", "public-only-decryptor",
           "wrong-key-decryptor", "payload-len-zero"]
 ASSUMPTIONS = ["OSError is never injected here (the medium is damaged at rest, reads succeed)"]
@@ -373,14 +373,17 @@ def run(case):
             fs.files[name] = damaged
             narrow = dict(case, damage=[dset], modes=[[mode, check, via]])
             ctx = "file kind %s, damage %s, decryptors %s, check_cmac %s, via %s" % (kind, dset, mode, check, via)
-            if kind == "bec2":
+            if kind in ("bec2", "bf3"):
                 try:
                     hb = files.binary_of(damaged)[1]
                     rg, info = refdir.walk(hb)
                     if any(ln == 0 for _, _, ln in info["blocks"]):
                         out.probes["bec2-empty-block-value"] += 1
+                    if any(e["total"] == 0 for e in info["entries"]):
+                        out.probes["payload-len-zero"] += 1
                 except Exception:
                     pass
+            if kind == "bec2":
                 if mode == "public":
                     out.probes["public-only-decryptor"] += 1
                 if mode == "wrong":
